@@ -3,11 +3,14 @@ package props
 import (
 	"encoding/json"
 	"fmt"
+	"io"
+	"log"
 	"os"
 	"testing"
 )
 
 func TestMain(m *testing.M) {
+	log.SetOutput(io.Discard) // the library logs "problematic URL" notes for hostile paths
 	code := m.Run()
 	writeAllStats()
 	os.Exit(code)
